@@ -5,7 +5,8 @@ PROP = {'counts': {'quick': 240, 'thorough': 6000},
          'active table, immutable tables and SSTables; every Get, the reported last sequence and the logical '
          'content of every layer are compared with the extracted Engine model; oracle = map replay of the '
          'acknowledged writes; non-trivial = data in >= 2 kinds of layers and at least one overwrite/delete '
-         'of a key after a flush or reopen; distinct by case text',
+         'of a key after a flush or reopen; distinct by case text'
+         ' Added later: sync mode in the program header (none/batch/immediate), big-batch family (records waiting in the log buffer, then a batch larger than the buffer, clean reopen), the empty key in the shared alphabet, merge-operand batches (mbatch against Engine.mixed_batch), handed buffers scribbled over.',
  'assumptions': ['background flush goroutine parked at a verifhook gate (layer placement decided by the '
                  "program's explicit flushes); age-based memtable switching disabled (MaxMemTableAge=0)"],
  'partial': 'single client; concurrency is C06'}
